@@ -270,7 +270,7 @@ fn run(ctx: &Ctx, mode: &str) -> Report {
     if mode == "e2e" {
         let mut report = Report::default();
         let counter = std::cell::Cell::new(0u64);
-        search(ctx, 2, ctx.cases(96, 3000), 10..90, &mut report, |choices, rep, _| {
+        search(ctx, 2, ctx.cases(240, 4000), 10..90, &mut report, |choices, rep, _| {
             let h = decode(choices);
             let n = counter.get();
             counter.set(n + 1);
@@ -285,7 +285,7 @@ fn run(ctx: &Ctx, mode: &str) -> Report {
         return report;
     }
     let mut report = Report::default();
-    search(ctx, 1, ctx.cases(480, 12000), 10..90, &mut report, |choices, rep, _| {
+    search(ctx, 1, ctx.cases(1200, 20000), 10..90, &mut report, |choices, rep, _| {
         let h = decode(choices);
         match check_history(&h) {
             Ok(nt) => {
